@@ -672,9 +672,16 @@ pub fn gen_counter(g: &mut Gen, cfg: &MachCfg) -> Option<Counter> {
         return None;
     }
     let op = *g.pick(&[Operation::Increment, Operation::Decrement, Operation::Set]);
-    Some(match g.below(3) {
-        0 => Counter::new(op),
-        1 => Counter::new_copy(op),
+    Some(match g.below(7) {
+        0 | 1 => Counter::new(op),
+        2 | 3 => Counter::new_copy(op),
+        // both set: only reachable through the public fields or a parsed machine;
+        // the documented rule is that copy supersedes the distribution
+        4 => Counter {
+            operation: op,
+            dist: Some(gen_counter_dist(g, cfg)),
+            copy: true,
+        },
         _ => Counter::new_dist(op, gen_counter_dist(g, cfg)),
     })
 }
